@@ -46,13 +46,14 @@ def is_sym(x):
 
 
 class SBool:
-    __slots__ = ("eng", "e")
+    __slots__ = ("eng", "e", "_id")
 
     def __init__(self, eng, e):
         self.eng, self.e = eng, e
+        self._id = e.get_id()
 
     def __bool__(self):
-        return self.eng.branch(self.e)
+        return self.eng.branch(self.e, self._id)
 
     def __and__(self, o):
         if isinstance(o, bool):
@@ -106,10 +107,11 @@ class SBool:
 class SInt:
     """Symbolic number (z3 Int or Real term). Deliberately not an int subclass."""
 
-    __slots__ = ("eng", "e")
+    __slots__ = ("eng", "e", "_id")
 
     def __init__(self, eng, e):
         self.eng, self.e = eng, e
+        self._id = e.get_id()
 
     # -- helpers
     @staticmethod
@@ -145,7 +147,18 @@ class SInt:
             pass
         return None
 
-    def _bin(self, o, f, special=None):
+    def _bin(self, o, f, special=None, opc=None):
+        to = type(o)
+        if to is SInt:
+            key = (opc, self._id, o._id, 1)
+        elif to is _real_int:
+            key = (opc, self._id, o, 0)
+        else:
+            key = None
+        if key is not None and opc is not None:
+            r = self.eng.tcache.get(key)
+            if r is not None:
+                return r
         if isinstance(o, float) and (o != o or o in (INF, -INF)):
             if special is None:
                 raise Unsupported("arithmetic with inf/nan")
@@ -153,22 +166,25 @@ class SInt:
         t = self._lift(o)
         if t is None:
             return NotImplemented
-        return SInt(self.eng, f(self.e, t))
+        r = SInt(self.eng, f(self.e, t))
+        if key is not None and opc is not None:
+            self.eng.tcache[key] = r
+        return r
 
     # -- arithmetic
     def __add__(self, o):
-        return self._bin(o, lambda a, b: a + b, lambda f: f)
+        return self._bin(o, lambda a, b: a + b, lambda f: f, opc=1)
 
     __radd__ = __add__
 
     def __sub__(self, o):
-        return self._bin(o, lambda a, b: a - b, lambda f: -f)
+        return self._bin(o, lambda a, b: a - b, lambda f: -f, opc=2)
 
     def __rsub__(self, o):
-        return self._bin(o, lambda a, b: b - a, lambda f: f)
+        return self._bin(o, lambda a, b: b - a, lambda f: f, opc=3)
 
     def __mul__(self, o):
-        return self._bin(o, lambda a, b: a * b)
+        return self._bin(o, lambda a, b: a * b, opc=4)
 
     __rmul__ = __mul__
 
@@ -215,7 +231,18 @@ class SInt:
         return SInt(self.eng, num / self.e)
 
     # -- comparisons
-    def _cmp(self, o, f, inf_res, ninf_res, nan_res=False):
+    def _cmp(self, o, f, inf_res, ninf_res, nan_res=False, opc=None):
+        to = type(o)
+        if to is SInt:
+            key = (opc, self._id, o._id, 1)
+        elif to is _real_int:
+            key = (opc, self._id, o, 0)
+        else:
+            key = None
+        if key is not None:
+            r = self.eng.tcache.get(key)
+            if r is not None:
+                return r
         if isinstance(o, float):
             if o != o:
                 return nan_res
@@ -226,26 +253,29 @@ class SInt:
         t = self._lift(o)
         if t is None:
             return NotImplemented
-        return SBool(self.eng, f(self.e, t))
+        r = SBool(self.eng, f(self.e, t))
+        if key is not None:
+            self.eng.tcache[key] = r
+        return r
 
     def __lt__(self, o):
-        return self._cmp(o, lambda a, b: a < b, True, False)
+        return self._cmp(o, lambda a, b: a < b, True, False, opc=10)
 
     def __le__(self, o):
-        return self._cmp(o, lambda a, b: a <= b, True, False)
+        return self._cmp(o, lambda a, b: a <= b, True, False, opc=11)
 
     def __gt__(self, o):
-        return self._cmp(o, lambda a, b: a > b, False, True)
+        return self._cmp(o, lambda a, b: a > b, False, True, opc=12)
 
     def __ge__(self, o):
-        return self._cmp(o, lambda a, b: a >= b, False, True)
+        return self._cmp(o, lambda a, b: a >= b, False, True, opc=13)
 
     def __eq__(self, o):
-        r = self._cmp(o, lambda a, b: a == b, False, False)
+        r = self._cmp(o, lambda a, b: a == b, False, False, opc=14)
         return False if r is NotImplemented else r
 
     def __ne__(self, o):
-        r = self._cmp(o, lambda a, b: a != b, True, True, True)
+        r = self._cmp(o, lambda a, b: a != b, True, True, True, opc=15)
         return True if r is NotImplemented else r
 
     def __bool__(self):
@@ -324,10 +354,21 @@ def _pick(better, a, b):
     if isinstance(a, SInt) or isinstance(b, SInt):
         s_ = a if isinstance(a, SInt) else b
         eng = s_.eng
+        ta, tb = type(a), type(b)
+        key = None
+        if (ta is SInt or ta is _real_int) and (tb is SInt or tb is _real_int):
+            key = (better, a._id if ta is SInt else a, b._id if tb is SInt else b,
+                   (ta is SInt) + 2 * (tb is SInt))
+            r = eng.tcache.get(key)
+            if r is not None:
+                return r
         ea, eb = s_._lift(a), s_._lift(b)
         if ea is None or eb is None:
             raise Unsupported("max/min of non-number")
-        return SInt(eng, z3.If(better(ea, eb), ea, eb))
+        r = SInt(eng, z3.If(better(ea, eb), ea, eb))
+        if key is not None:
+            eng.tcache[key] = r
+        return r
     return a if better(a, b) else b
 
 
@@ -352,8 +393,16 @@ def _mk(real, better):
     return f
 
 
-sym_max = _mk(_real_max, lambda a, b: a >= b)
-sym_min = _mk(_real_min, lambda a, b: a <= b)
+def _ge(a, b):
+    return a >= b
+
+
+def _le(a, b):
+    return a <= b
+
+
+sym_max = _mk(_real_max, _ge)
+sym_min = _mk(_real_min, _le)
 
 
 def sym_abs(x):
@@ -514,6 +563,8 @@ class Engine:
             self.decided = {}
             self.decided_true = set()
             self._keep = []   # keeps decided terms alive so that ids are not reused
+        self.var_cache = {}
+        self.tcache = {}      # hash-consing of proxy terms across paths (pure term construction)
 
     # -- inputs -----------------------------------------------------------
     def fresh_int(self, name, lo=None, hi=None, real=False):
@@ -526,7 +577,10 @@ class Engine:
             return v
         if name in self.vars:
             raise EngineFault(f"duplicate symbolic variable {name}")
-        v = z3.Real(name) if real else z3.Int(name)
+        v = self.var_cache.get((name, real))
+        if v is None:
+            v = z3.Real(name) if real else z3.Int(name)
+            self.var_cache[(name, real)] = v
         self.vars[name] = v
         if lo is not None:
             self._add(v >= lo)
@@ -592,13 +646,14 @@ class Engine:
             raise Unsupported("solver unknown")
         return r == z3.sat, m
 
-    def branch(self, e):
+    def branch(self, e, eid=None):
         if self.mode == "conc":  # pragma: no cover - symbolic terms never exist here
             raise EngineFault("symbolic branch in concrete mode")
         self.stats["branches"] += 1
         # a condition already decided on this path needs neither a trail entry
         # nor a solver call (z3 terms are hash-consed: same id = same term)
-        eid = e.get_id()
+        if eid is None:
+            eid = e.get_id()
         d = self.decided.get(eid)
         if d is not None:
             return d
